@@ -40,6 +40,10 @@ def histories(strict=False, guaranteed_bias=False, max_ticks=40):
         # the faulty link stays armed this long after the last send, so that retransmissions (one message timeout later)
         # and their retransmissions meet the faults too
         "adv_extra": st.sampled_from([0.0, 0.5, 1.3, 2.5, 3.5]),
+        # sends issued from inside the client's connect callback (they travel with the challenge response): [size, retry]
+        "on_connect": st.lists(st.tuples(st.sampled_from([0, 9, 200, 1400]), st.sampled_from([0, -1, -1])).map(list), max_size=2),
+        # every n-th callback raises after recording its result (0 = none)
+        "cb_raises_every": st.sampled_from([0, 0, 2, 3]),
     })
 
 
@@ -66,7 +70,21 @@ def run(ctx, c, oracle, per_step=None, link_setup=None, payload_fn=None):
     f = Facts()
     with W.World(seed=c["seed"], flavour=c["flavour"], mtu=c["mtu"]) as w:
         f.w = w
-        ch = w.connect_client()
+        f.recs = []
+        ch = w.add_client()
+        pre = []
+
+        def on_connected(ok):
+            if ok:
+                for k, (n0, r0) in enumerate(c.get("on_connect", ())):
+                    rec0 = ch.send(payload_fn(990000 + k, n0), retry=r0, callback=True)
+                    rec0.update(n=n0, uid=990000 + k, guaranteed=(r0 == -1),
+                                frag_id=int(ch.conn.seq_fragment) if (n0 > Packet.MAX_PAYLOAD_SIZE and "raised" not in rec0) else None)
+                    pre.append(rec0)
+        ch.udp.connect(w.server_addr, on_connected)
+        ch._note_status()
+        if not w.run(3.0, 0.017, until=lambda: ch.connected() and ch.laddr in w.ctxt.connections):
+            raise W.WorldError("honest handshake did not complete")
         f.ch = ch
         sconn = w.server_conn(ch.laddr)
         f.watch = {"c": W.ConnWatch(ch.conn, w.clock), "s": W.ConnWatch(sconn, w.clock)}
@@ -103,7 +121,7 @@ def run(ctx, c, oracle, per_step=None, link_setup=None, payload_fn=None):
         link.t_base = w.clock.t
         w.net.policy = link
         uid = 0
-        f.recs = []
+        f.recs = list(pre)
         total_bytes = 0
         ticks = c["ticks"]
         by_tick = {}
@@ -152,11 +170,12 @@ def run(ctx, c, oracle, per_step=None, link_setup=None, payload_fn=None):
                 if api == 1:
                     retry = -1
                 conn = f.conns[side]
+                raises = bool(c.get("cb_raises_every")) and uid % c["cb_raises_every"] == 0
                 if side == "c":
-                    rec = ch.send(payload_fn(uid, n), retry=retry, callback=True, api=apiname)
+                    rec = ch.send(payload_fn(uid, n), retry=retry, callback=True, api=apiname, cb_raises=raises)
                     rec["frag_id"] = int(conn.seq_fragment) if n > P and "raised" not in rec else None
                 else:
-                    rec = w.server_send(ch.laddr, payload_fn(uid, n), retry=RetryMode(retry), callback=True, api=apiname)
+                    rec = w.server_send(ch.laddr, payload_fn(uid, n), retry=RetryMode(retry), callback=True, api=apiname, cb_raises=raises)
                     rec["frag_id"] = None
                     if n > P:
                         w.on_server_thread(lambda rec=rec, conn=conn: rec.__setitem__("frag_id", int(conn.seq_fragment) if "raised" not in rec else None))
